@@ -253,6 +253,23 @@ def run(case, rec):
             _same(rec, base_i, other, tol_i, "%s query coordinates" % nm)
             other = _run(rec, factory, (e.astype(it), n.astype(it)), [d.astype(it) for d in data], (qie.astype(it), qin.astype(it)), "all int")
             _same(rec, base_i, other, tol_i, "%s coordinates, data and query" % nm)
+        # integer-valued weights passed with an integer dtype (only estimators that use weights)
+        if spec[0] in ("Spline", "Trend", "VectorSpline2D", "Chain") and (spec[1].get("damping") is not None or spec[0] in ("Trend", "Chain")):
+            wv = np.array([1.0 + (i * 3) % 4 for i in range(npts)])
+            wf = wv if nc == 1 else tuple(wv for _ in range(nc))
+
+            def runw(w):
+                est = factory()
+                d = data[0] if len(data) == 1 else tuple(data)
+                if raised(call(rec, est.fit, (e, n), d, w)):
+                    rec.check(False, "fit with weights raised")
+                    return None
+                p = call(rec, est.predict, (qe, qn))
+                return None if raised(p) else ([np.asarray(c) for c in p] if isinstance(p, tuple) else [np.asarray(p)])
+            bw = runw(wf)
+            for it in (np.int64, np.int32):
+                wi = wv.astype(it) if nc == 1 else tuple(wv.astype(it) for _ in range(nc))
+                _same(rec, bw, runw(wi), tight, "%s weights" % np.dtype(it).name)
         # float32 inputs of exactly representable values
         other = _run(rec, factory, (e.astype(np.float32).astype(float), n), data, (qe, qn), "float32 round trip")
         _same(rec, base, other, tight, "float32-representable coordinates")
